@@ -42,8 +42,8 @@ CHECKS = {
    design="3/C11"),
  "C12": dict(
    technique="observer on the family explorers: an independent decoder written from the cross-language layout must recover the hook dump / reference state from serialize() at every visited state",
-   text="At every state visited by the (reduced-bound) explorations the emitted image is decoded by the harness's own spec decoder (never the library's deserialize) and compared field by field with the in-memory state read through the hooks and with the reference model: HLL (preamble, flags, coupons, nibble/6-bit/byte registers, cur_min, aux area by compact flag, hip/kxq, size formulas), compact Theta v3/v4 (preLongs by case, flags, seed hash, theta, entries, MSB-first delta bit stream, sizes), CPC (preInts by flag combination, field order incl. both HIP positions, stream lengths, flags vs flavor, numSv, kxp/hip).",
-   note="Trusted base: my transcription of the Java/C++ layouts (DESIGN Appendix A). CPC compressed payload: see evidence notes for whether the independent decompressor is active.",
+   text="At every state visited by the (reduced-bound) explorations the emitted image is decoded by the harness's own spec decoder (never the library's deserialize) and compared field by field with the in-memory state read through the hooks and with the reference model: HLL (preamble, flags, coupons, nibble/6-bit/byte registers, cur_min, aux area by compact flag, hip/kxq, size formulas), compact Theta v3/v4 (preLongs by case, flags, seed hash, theta, entries, MSB-first delta bit stream, sizes), CPC (preInts by flag combination, field order incl. both HIP positions, stream lengths, flags vs flavor, numSv, kxp/hip, and the compressed payload through an independent decompressor -> bit matrix == model).",
+   note="Trusted base: my transcription of the Java/C++ layouts (DESIGN Appendix A). CPC compressed payload is decoded by the harness's own decompressor; only the code tables are taken from the library (hook) and checked for self-consistency.",
    design="3/C12"),
  "C13": dict(
    technique="finite-domain enumeration of format variants x abstract states through an independent spec encoder, real deserialize + state/behaviour comparison",
